@@ -125,6 +125,19 @@ def run_program(mode, prog):
                     # representable in it; what goes into the histogram is the same numbers)
                     h.bulkload(numpy.array(vals, dtype=getattr(numpy, op[3]) if len(op) > 3 else numpy.float64))
                     out.append({"state": _state(mode, h), "pairs": pairs, "above": above, "dmin": dmin, "dmax": dmax})
+                elif k == "copy":
+                    # copy.deepcopy / pickle round trip of the histogram object: the copy replaces the original
+                    import copy as _copy
+                    import pickle as _pickle
+
+                    h = env[op[1]]
+                    r = _copy.deepcopy(h) if op[2] == "deepcopy" else (_copy.copy(h) if op[2] == "copy" else _pickle.loads(_pickle.dumps(h)))
+                    if op[2] == "copy":
+                        # a shallow copy shares its lists with the original: detach them as a caller that keeps both would expect
+                        r.bins = list(r.bins)
+                        r.diffs = None if r.diffs is None else list(r.diffs)
+                    env[op[1]] = r
+                    out.append({"state": _state(mode, r)})
                 elif k == "load":
                     h = env[op[1]]
                     if mode == "f":
@@ -209,8 +222,11 @@ def coq_obs(mode, ob):
 
 
 def to_coq_case(mode, prog, obs, default_cap):
-    ops = [coq_op(mode, op, ob, default_cap) for op, ob in zip(prog, obs)]
-    return "(%s, %s)" % (L.lst(ops), L.lst(coq_obs(mode, ob) for ob in obs))
+    # a copy of a histogram is the same value: the model has no such operation, the op and its observation
+    # are left out of the Coq term (the oracle requires the state after the copy to equal the state before it)
+    pairs = [(op, ob) for op, ob in zip(prog, obs) if op[0] != "copy"]
+    ops = [coq_op(mode, op, ob, default_cap) for op, ob in pairs]
+    return "(%s, %s)" % (L.lst(ops), L.lst(coq_obs(mode, ob) for _, ob in pairs))
 
 
 # ---------------------------------------------------------------- reference algorithm (exact or float)
